@@ -7,7 +7,7 @@
     record freed once, stack empty) is the executable predicate family WB.Abi.Check.check_call_import /
     check_call_export evaluated by the check on the REAL streams. *)
 From Coq Require Import List NArith Arith.
-From WB Require Import Wit.Ty Canon.Spec Abi.Sig Abi.CastSem Abi.SigProofs Abi.SigFuncProofs.
+From WB Require Import Wit.Ty Canon.Spec Abi.Sig Abi.Instr Abi.CastSem Abi.Gen Abi.SigProofs Abi.SigFuncProofs Abi.GenDiscipline Abi.GenCallImport.
 Import ListNotations.
 
 Theorem C02_core_signature_is_canonical : forall pw v fn,
@@ -20,4 +20,19 @@ Theorem C02_core_signature_is_canonical : forall pw v fn,
                        <? length (concat (map (Spec.flatten pw) (f_params fn))))%nat.
 Proof. exact wasm_signature_is_canonical. Qed.
 
+(** The glue of a synchronous import call (Generator::call, GuestImport, LowerArgsLiftResults), for EVERY
+    non-method signature whose result type is well-formed and every is_list_canonical oracle: no panic site is
+    reached - realloc is unset at entry and exit, parameters are lowered flat (<= 16) or written into a parameter
+    area, the stack holds exactly sig.params.len() operands at the core call (the assert_eq! in abi.rs), a result of
+    more than one flat value is read back through the return pointer that was taken exactly once
+    (return_pointer.take().unwrap() succeeds), a flat result is lifted from exactly the core results, and the final
+    assert!(stack.is_empty()) holds. *)
+Theorem C02_sync_import_call_never_panics : forall canon fn sig,
+  f_method fn = false ->
+  match f_result fn with Some t => valid_ty t = true | None => True end ->
+  wasm_signature GuestImport fn = SigOk sig ->
+  ok_with (call canon fn GuestImport LowerArgsLiftResults false) gst0 (fun _ s' => stack s' = [] /\ realloc s' = None).
+Proof. exact call_import_sync_ok. Qed.
+
+Print Assumptions C02_sync_import_call_never_panics.
 Print Assumptions C02_core_signature_is_canonical.
